@@ -68,7 +68,7 @@ Lemma idx_find_build cfg s se :
 Proof. unfold build; rewrite idx_find_fold; reflexivity. Qed.
 
 Lemma lookup_is_reference cfg s c : lookup (build cfg) s c = ref_lookup cfg s c.
-Proof. unfold lookup, ref_lookup; rewrite !idx_find_build; reflexivity. Qed.
+Proof. unfold lookup, ref_lookup, ref_lookup_in; rewrite !idx_find_build; reflexivity. Qed.
 
 (* ---------- parsers produce VLANs in 1..4094 ---------- *)
 Lemma nseq_in a n x : In x (nseq a n) -> (a <= x < a + N.of_nat n)%N.
@@ -152,12 +152,12 @@ Lemma untagged cfg s :
   | Some c => Some (c_name c, c_idx c)
   | None => None
   end.
-Proof. rewrite lookup_is_reference; unfold ref_lookup; rewrite no_exact_zero; reflexivity. Qed.
+Proof. rewrite lookup_is_reference; unfold ref_lookup, ref_lookup_in; rewrite no_exact_zero; reflexivity. Qed.
 
 Lemma uncovered cfg s c :
   (forall cl, In cl (claims cfg) -> ~ covers cl s c) -> lookup (build cfg) s c = None.
 Proof.
-  intros H; rewrite lookup_is_reference; unfold ref_lookup.
+  intros H; rewrite lookup_is_reference; unfold ref_lookup, ref_lookup_in.
   assert (E1 : find (key_eqb s (SelExact c)) (claims cfg) = None).
   { apply find_none_iff; intros x Hx. destruct (key_eqb s (SelExact c) x) eqn:K; [|reflexivity].
     apply key_eqb_eq in K; inversion K. exfalso; apply (H x Hx); split; auto. }
@@ -172,7 +172,7 @@ Lemma lookup_sound cfg s c n i :
   lookup (build cfg) s c = Some (n, i) ->
   exists cl, In cl (claims cfg) /\ covers cl s c /\ c_name cl = n /\ c_idx cl = i.
 Proof.
-  rewrite lookup_is_reference; unfold ref_lookup.
+  rewrite lookup_is_reference; unfold ref_lookup, ref_lookup_in.
   destruct (find (key_eqb s (SelExact c)) (claims cfg)) as [cl|] eqn:E1.
   - intros H; inversion H; subst. apply find_some in E1 as [Hin K].
     apply key_eqb_eq in K; inversion K. exists cl; repeat split; auto.
@@ -186,7 +186,7 @@ Lemma exact_wins cfg s c cl :
   exists cl', In cl' (claims cfg) /\ c_svlan cl' = s /\ c_sel cl' = SelExact c /\
               lookup (build cfg) s c = Some (c_name cl', c_idx cl').
 Proof.
-  intros Hin Hs Hse. rewrite lookup_is_reference; unfold ref_lookup.
+  intros Hin Hs Hse. rewrite lookup_is_reference; unfold ref_lookup, ref_lookup_in.
   destruct (find (key_eqb s (SelExact c)) (claims cfg)) as [cl'|] eqn:E1.
   - apply find_some in E1 as [Hin' K]. apply key_eqb_eq in K; inversion K.
     exists cl'; repeat split; auto.
@@ -485,4 +485,420 @@ Lemma digits_val_digits s : forall acc v, digits_val acc s = Some v -> forallb i
 Proof.
   induction s as [|c s IH]; intros acc v; simpl; [reflexivity|].
   destruct (is_digit c); [|discriminate]. intros H; simpl; eapply IH; exact H.
+Qed.
+
+(* ====================================================================================== *)
+(* ---------- completeness of the parsers: trim / split lemmas ---------- *)
+From Coq Require Import ZifyBool ZifyNat ZifyN.
+
+Definition head_ok (m : str) : bool := match m with [] => true | c :: _ => negb (is_space c) end.
+
+Lemma drop_space_all_space pre r : all_space pre -> drop_space (pre ++ r) = drop_space r.
+Proof.
+  unfold all_space. induction pre as [|c pre IH]; simpl; [reflexivity|].
+  destruct (is_space c); simpl; [exact IH|discriminate].
+Qed.
+
+Lemma drop_space_nil s : all_space s -> drop_space s = [].
+Proof. intros H. pose proof (drop_space_all_space s [] H) as E. rewrite app_nil_r in E. exact E. Qed.
+
+Lemma drop_space_head_ok m : head_ok m = true -> drop_space m = m.
+Proof. destruct m as [|c m]; simpl; [reflexivity|]. destruct (is_space c); [discriminate|reflexivity]. Qed.
+
+Lemma drop_space_head_ok_app m x : head_ok m = true -> m <> [] -> drop_space (m ++ x) = m ++ x.
+Proof. destruct m as [|c m]; [congruence|]. simpl. destruct (is_space c); [discriminate|reflexivity]. Qed.
+
+Lemma trim_core pre m post :
+  all_space pre -> all_space post -> head_ok m = true -> head_ok (rev m) = true ->
+  trim (pre ++ m ++ post) = m.
+Proof.
+  intros Hpre Hpost H1 H2. unfold trim. rewrite drop_space_all_space by exact Hpre.
+  destruct m as [|c m'].
+  - simpl. rewrite (drop_space_nil post Hpost). reflexivity.
+  - rewrite drop_space_head_ok_app by (exact H1 || discriminate).
+    rewrite rev_app_distr. rewrite drop_space_all_space by (apply all_space_rev; exact Hpost).
+    rewrite drop_space_head_ok by exact H2. apply rev_involutive.
+Qed.
+
+Lemma trim_all_space s : all_space s -> trim s = [].
+Proof. intros H. unfold trim. rewrite (drop_space_nil s H). reflexivity. Qed.
+
+Lemma digit_not_space c : is_digit c = true -> is_space c = false.
+Proof. unfold is_digit, is_space. lia. Qed.
+Lemma digit_not_dash c : is_digit c = true -> N.eqb dash c = false.
+Proof. unfold is_digit, dash. lia. Qed.
+Lemma space_not_dash c : is_space c = true -> N.eqb dash c = false.
+Proof. unfold is_space, dash. lia. Qed.
+
+Lemma forallb_rev_true {A} (f : A -> bool) l : forallb f l = true -> forallb f (rev l) = true.
+Proof. rewrite !forallb_forall; intros H x Hx; apply H, in_rev; exact Hx. Qed.
+
+Lemma digits_head_ok d : forallb is_digit d = true -> head_ok d = true.
+Proof.
+  destruct d as [|c d]; simpl; [reflexivity|]. rewrite andb_true_iff; intros [H _].
+  rewrite (digit_not_space c H). reflexivity.
+Qed.
+
+Lemma head_ok_app x y : x <> [] -> head_ok (x ++ y) = head_ok x.
+Proof. destruct x; [congruence|reflexivity]. Qed.
+
+Lemma rev_nonempty {A} (l : list A) : l <> [] -> rev l <> [].
+Proof. destruct l; [congruence|]. simpl. intros _ E. apply app_eq_nil in E as [_ E]. discriminate. Qed.
+
+Lemma nodash_forall (P : N -> bool) l :
+  (forall c, P c = true -> N.eqb dash c = false) -> forallb P l = true -> contains_dash l = false.
+Proof.
+  intros HP. unfold contains_dash. induction l as [|c l IH]; cbn [existsb forallb]; [reflexivity|].
+  rewrite andb_true_iff; intros [Hc Hl]. rewrite (HP c Hc), (IH Hl). reflexivity.
+Qed.
+Lemma nodash_digits d : forallb is_digit d = true -> contains_dash d = false.
+Proof. apply nodash_forall, digit_not_dash. Qed.
+Lemma nodash_spaces w : all_space w -> contains_dash w = false.
+Proof. apply nodash_forall, space_not_dash. Qed.
+Lemma contains_dash_app a b : contains_dash (a ++ b) = contains_dash a || contains_dash b.
+Proof. unfold contains_dash; apply existsb_app. Qed.
+
+Lemma split_dash_aux_nodash x : forall cur, contains_dash x = false -> split_dash_aux cur x = [rev cur ++ x].
+Proof.
+  unfold contains_dash. induction x as [|c x IH]; intros cur; cbn [existsb split_dash_aux app].
+  - rewrite app_nil_r; reflexivity.
+  - rewrite orb_false_iff; intros [Hc Hx]. rewrite N.eqb_sym in Hc. rewrite Hc.
+    rewrite (IH (c :: cur) Hx); cbn [rev]. rewrite <- app_assoc; reflexivity.
+Qed.
+
+Lemma split_dash_aux_app x y : forall cur, contains_dash x = false ->
+  split_dash_aux cur (x ++ dash :: y) = (rev cur ++ x) :: split_dash_aux [] y.
+Proof.
+  unfold contains_dash. induction x as [|c x IH]; intros cur; cbn [existsb split_dash_aux app].
+  - intros _. rewrite N.eqb_refl, app_nil_r; reflexivity.
+  - rewrite orb_false_iff; intros [Hc Hx]. rewrite N.eqb_sym in Hc. rewrite Hc.
+    rewrite (IH (c :: cur) Hx); cbn [rev]. rewrite <- app_assoc; reflexivity.
+Qed.
+
+Lemma parse_uint16_complete d v :
+  d <> [] -> digits_val 0 d = Some v -> (v <= 65535)%N -> parse_uint16 d = Some v.
+Proof.
+  intros Hd Hv Hle. unfold parse_uint16. destruct d as [|c d]; [congruence|].
+  rewrite Hv. destruct (N.leb_spec v 65535); [reflexivity|lia].
+Qed.
+
+Lemma parse_vlan_range_complete s a b :
+  vlan_syntax s a b -> (1 <= a <= b)%N -> (b <= 4094)%N ->
+  parse_vlan_range s = Some (nseq a (N.to_nat (b - a + 1))).
+Proof.
+  intros Hs Hab Hb. destruct Hs as [pre d post v Hpre Hpost Hd Hv | pre d1 w1 w2 d2 post a b Hpre Hw1 Hw2 Hpost Hd1 Hd2 Ha Hbv].
+  - pose proof (digits_val_digits _ _ _ Hv) as Dd.
+    unfold parse_vlan_range.
+    rewrite (trim_core pre d post Hpre Hpost (digits_head_ok d Dd)
+               (digits_head_ok _ (forallb_rev_true _ _ Dd))).
+    rewrite (nodash_digits d Dd).
+    rewrite (parse_uint16_complete d v Hd Hv) by lia.
+    destruct (N.eqb_spec v 0); [lia|]. destruct (N.ltb_spec 4094 v); [lia|].
+    replace (v - v + 1)%N with 1%N by lia. reflexivity.
+  - pose proof (digits_val_digits _ _ _ Ha) as D1. pose proof (digits_val_digits _ _ _ Hbv) as D2.
+    set (m := (d1 ++ w1) ++ dash :: (w2 ++ d2)).
+    assert (Es : pre ++ d1 ++ w1 ++ [dash] ++ w2 ++ d2 ++ post = pre ++ m ++ post).
+    { unfold m. repeat (rewrite <- app_assoc; simpl). reflexivity. }
+    assert (Hm1 : head_ok m = true).
+    { unfold m. rewrite <- app_assoc. rewrite head_ok_app by exact Hd1. apply digits_head_ok; exact D1. }
+    assert (Hm2 : head_ok (rev m) = true).
+    { unfold m. replace ((d1 ++ w1) ++ dash :: w2 ++ d2) with (((d1 ++ w1) ++ dash :: w2) ++ d2)
+        by (repeat (rewrite <- app_assoc; simpl); reflexivity).
+      rewrite rev_app_distr. rewrite head_ok_app by (apply rev_nonempty; exact Hd2).
+      apply digits_head_ok, forallb_rev_true; exact D2. }
+    unfold parse_vlan_range. rewrite Es, (trim_core pre m post Hpre Hpost Hm1 Hm2).
+    assert (Hc : contains_dash m = true).
+    { unfold m. rewrite contains_dash_app.
+      assert (E : contains_dash (dash :: w2 ++ d2) = true)
+        by (unfold contains_dash; cbn [existsb]; rewrite N.eqb_refl; reflexivity).
+      rewrite E. apply orb_true_r. }
+    rewrite Hc.
+    assert (N1 : contains_dash (d1 ++ w1) = false).
+    { rewrite contains_dash_app, (nodash_digits d1 D1), (nodash_spaces w1 Hw1). reflexivity. }
+    assert (N2 : contains_dash (w2 ++ d2) = false).
+    { rewrite contains_dash_app, (nodash_digits d2 D2), (nodash_spaces w2 Hw2). reflexivity. }
+    unfold split_dash, m. rewrite (split_dash_aux_app _ _ [] N1), (split_dash_aux_nodash _ [] N2). cbn [rev app].
+    assert (T1 : trim (d1 ++ w1) = d1).
+    { apply (trim_core [] d1 w1); [reflexivity|exact Hw1|apply digits_head_ok; exact D1|
+                                   apply digits_head_ok, forallb_rev_true; exact D1]. }
+    assert (T2 : trim (w2 ++ d2) = d2).
+    { pose proof (trim_core w2 d2 [] Hw2 eq_refl (digits_head_ok d2 D2)
+                    (digits_head_ok _ (forallb_rev_true _ _ D2))) as T. rewrite app_nil_r in T. exact T. }
+    rewrite T1, T2.
+    rewrite (parse_uint16_complete d1 a Hd1 Ha) by lia.
+    rewrite (parse_uint16_complete d2 b Hd2 Hbv) by lia.
+    destruct (N.ltb_spec b a); [lia|].
+    destruct (N.eqb_spec a 0); [lia|]. destruct (N.eqb_spec b 0); [lia|]. simpl.
+    destruct (N.ltb_spec 4094 b); [lia|]. reflexivity.
+Qed.
+
+(* exact characterisation of the accepted range strings *)
+Lemma parse_vlan_range_iff s l :
+  parse_vlan_range s = Some l <->
+  exists a b, vlan_syntax s a b /\ (1 <= a <= b)%N /\ (b <= 4094)%N /\ l = nseq a (N.to_nat (b - a + 1)).
+Proof.
+  split; [apply parse_vlan_range_syntax|].
+  intros [a [b [Hs [Hab [Hb ->]]]]]. apply parse_vlan_range_complete; assumption.
+Qed.
+
+(* ---------- ParseCVLAN: syntax and completeness ---------- *)
+Inductive cvlan_syntax : str -> sel -> Prop :=
+| CS_blank s : all_space s -> cvlan_syntax s SelAny
+| CS_any pre w post :
+    all_space pre -> all_space post -> map lower w = s_any -> cvlan_syntax (pre ++ w ++ post) SelAny
+| CS_exact pre d post v :
+    all_space pre -> all_space post -> d <> [] -> digits_val 0 d = Some v ->
+    cvlan_syntax (pre ++ d ++ post) (SelExact v).
+
+Definition sel_in_range (r : sel) : Prop :=
+  match r with SelAny => True | SelExact v => (1 <= v <= 4094)%N end.
+
+Lemma str_eqb_eq a : forall b, str_eqb a b = true <-> a = b.
+Proof.
+  unfold str_eqb. induction a as [|x a IH]; intros [|y b]; simpl; try (split; discriminate).
+  - split; reflexivity.
+  - specialize (IH b). rewrite !andb_true_iff in *. rewrite N.eqb_eq. split.
+    + intros [Hl [Hxy Hf]]. f_equal; [exact Hxy|apply IH; split; assumption].
+    + intros E; inversion E; subst. destruct (proj2 IH eq_refl) as [? ?]. repeat split; auto.
+Qed.
+
+Lemma parse_cvlan_syntax s r : parse_cvlan s = Some r -> cvlan_syntax s r /\ sel_in_range r.
+Proof.
+  unfold parse_cvlan. destruct (trim_spec s) as [pre [post [Es [Hpre Hpost]]]].
+  destruct (trim s) as [|h t] eqn:Et.
+  - intros E; inversion E; subst r; clear E. split; [|exact I].
+    apply CS_blank. rewrite Es. simpl. apply all_space_app; assumption.
+  - destruct (str_eqb (map lower (h :: t)) s_any) eqn:Ea.
+    + intros E; inversion E; subst r; clear E. split; [|exact I].
+      rewrite Es. apply CS_any; [exact Hpre|exact Hpost|apply str_eqb_eq; exact Ea].
+    + destruct (parse_uint16 (h :: t)) as [v|] eqn:Pv; [|discriminate].
+      destruct (N.eqb_spec v 0); [discriminate|].
+      destruct (N.ltb_spec 4094 v); [discriminate|].
+      intros E; inversion E; subst r; clear E. apply parse_uint16_spec in Pv as [Nv Dv].
+      split; [|simpl; lia]. rewrite Es. apply CS_exact; assumption.
+Qed.
+
+Lemma lower_any_not_space c v :
+  lower c = v -> (v = 97 \/ v = 110 \/ v = 121)%N -> is_space c = false.
+Proof. unfold lower, is_space. destruct (N.leb 65 c && N.leb c 90) eqn:E; lia. Qed.
+
+Lemma lower_digit c : is_digit c = true -> lower c = c.
+Proof. unfold lower, is_digit. destruct (N.leb 65 c && N.leb c 90) eqn:E; lia. Qed.
+
+Lemma parse_cvlan_complete s r : cvlan_syntax s r -> sel_in_range r -> parse_cvlan s = Some r.
+Proof.
+  intros Hs Hr. destruct Hs as [s Hsp | pre w post Hpre Hpost Hw | pre d post v Hpre Hpost Hd Hv].
+  - unfold parse_cvlan. rewrite (trim_all_space s Hsp). reflexivity.
+  - destruct w as [|c1 [|c2 [|c3 [|c4 w]]]]; try discriminate Hw.
+    inversion Hw as [[L1 L2 L3]].
+    assert (S1 : is_space c1 = false) by (eapply lower_any_not_space; [exact L1|auto]).
+    assert (S3 : is_space c3 = false) by (eapply lower_any_not_space; [exact L3|auto]).
+    unfold parse_cvlan. rewrite (trim_core pre [c1; c2; c3] post Hpre Hpost) by (simpl; rewrite ?S1, ?S3; reflexivity).
+    assert (E : str_eqb (map lower [c1; c2; c3]) s_any = true) by (apply str_eqb_eq; exact Hw).
+    rewrite E. reflexivity.
+  - pose proof (digits_val_digits _ _ _ Hv) as Dd.
+    unfold parse_cvlan.
+    rewrite (trim_core pre d post Hpre Hpost (digits_head_ok d Dd)
+               (digits_head_ok _ (forallb_rev_true _ _ Dd))).
+    destruct d as [|c d]; [congruence|].
+    assert (E : str_eqb (map lower (c :: d)) s_any = false).
+    { destruct (str_eqb (map lower (c :: d)) s_any) eqn:E; [|reflexivity].
+      apply str_eqb_eq in E. simpl in Dd. apply andb_true_iff in Dd as [Dc _].
+      simpl in E. rewrite (lower_digit c Dc) in E. inversion E; subst c. discriminate Dc. }
+    rewrite E. simpl in Hr. rewrite (parse_uint16_complete (c :: d) v Hd Hv) by lia.
+    destruct (N.eqb_spec v 0); [lia|]. destruct (N.ltb_spec 4094 v); [lia|]. reflexivity.
+Qed.
+
+Lemma parse_cvlan_iff s r : parse_cvlan s = Some r <-> cvlan_syntax s r /\ sel_in_range r.
+Proof. split; [apply parse_cvlan_syntax|]. intros [H1 H2]. apply parse_cvlan_complete; assumption. Qed.
+
+(* which strings are the wildcard *)
+Lemma parse_cvlan_any_iff s :
+  parse_cvlan s = Some SelAny <-> trim s = [] \/ map lower (trim s) = s_any.
+Proof.
+  unfold parse_cvlan. destruct (trim s) as [|h t].
+  - split; [left; reflexivity|reflexivity].
+  - destruct (str_eqb (map lower (h :: t)) s_any) eqn:Ea.
+    + split; [right; apply str_eqb_eq; exact Ea|reflexivity].
+    + split.
+      * destruct (parse_uint16 (h :: t)) as [v|]; [|discriminate].
+        destruct (N.eqb v 0); [discriminate|]. destruct (N.ltb 4094 v); discriminate.
+      * intros [H|H]; [discriminate|]. apply str_eqb_eq in H. congruence.
+Qed.
+
+(* ====================================================================================== *)
+(* ---------- lookup is constant on the classes induced by the range endpoints ---------- *)
+Definition pr (c : claim) : str * nat := (c_name c, c_idx c).
+
+Lemma ref_lookup_pr cfg s c :
+  ref_lookup cfg s c =
+  match option_map pr (find (key_eqb s (SelExact c)) (claims cfg)) with
+  | Some x => Some x
+  | None => option_map pr (find (key_eqb s SelAny) (claims cfg))
+  end.
+Proof.
+  unfold ref_lookup, ref_lookup_in. destruct (find (key_eqb s (SelExact c)) (claims cfg)); simpl; [reflexivity|].
+  destruct (find (key_eqb s SelAny) (claims cfg)); reflexivity.
+Qed.
+
+(* x and x' compare the same way against every cut point *)
+Definition ssim (cuts : list N) (x x' : N) : Prop := forall p, In p cuts -> N.leb p x = N.leb p x'.
+Definition sel_sim (cuts : list N) (se se' : sel) : Prop :=
+  match se, se' with
+  | SelAny, SelAny => True
+  | SelExact c, SelExact c' => ssim cuts c c'
+  | _, _ => False
+  end.
+
+Lemma ssim_app A B x x' : ssim (A ++ B) x x' -> ssim A x x' /\ ssim B x x'.
+Proof. unfold ssim; intros H; split; intros p Hp; apply H, in_or_app; [left|right]; exact Hp. Qed.
+Lemma sel_sim_app A B se se' : sel_sim (A ++ B) se se' -> sel_sim A se se' /\ sel_sim B se se'.
+Proof. destruct se, se'; simpl; try tauto. apply ssim_app. Qed.
+
+Definition agree (s : N) (se : sel) (s' : N) (se' : sel) (L : list claim) : Prop :=
+  option_map pr (find (key_eqb s se) L) = option_map pr (find (key_eqb s' se') L).
+
+Lemma agree_nil s se s' se' : agree s se s' se' [].
+Proof. reflexivity. Qed.
+
+Lemma agree_app s se s' se' L1 L2 :
+  agree s se s' se' L1 -> agree s se s' se' L2 -> agree s se s' se' (L1 ++ L2).
+Proof.
+  unfold agree; rewrite !find_app. intros H1 H2.
+  destruct (find (key_eqb s se) L1), (find (key_eqb s' se') L1); simpl in *; try discriminate; auto.
+Qed.
+
+Definition mk_claim (se0 : sel) (name : str) (i : nat) (x : N) : claim :=
+  {| c_svlan := x; c_sel := se0; c_name := name; c_idx := i |}.
+
+Lemma find_block s se se0 name i svs :
+  option_map pr (find (key_eqb s se) (map (mk_claim se0 name i) svs)) =
+  if existsb (N.eqb s) svs && sel_eqb se se0 then Some (name, i) else None.
+Proof.
+  induction svs as [|x svs IH]; [reflexivity|].
+  cbn [map find existsb]. unfold key_eqb at 1. cbn [mk_claim c_svlan c_sel].
+  destruct (N.eqb s x); cbn [orb andb].
+  - destruct (sel_eqb se se0) eqn:E2; [reflexivity|].
+    rewrite IH, ?E2, andb_false_r. reflexivity.
+  - exact IH.
+Qed.
+
+Lemma nseq_length a n : length (nseq a n) = n.
+Proof. revert a; induction n as [|n IH]; intros a; simpl; [reflexivity|]. rewrite IH; reflexivity. Qed.
+
+Lemma existsb_nseq s n : forall a,
+  existsb (N.eqb s) (nseq a n) = N.leb a s && negb (N.leb (a + N.of_nat n) s).
+Proof.
+  induction n as [|n IH]; intros a; cbn [nseq existsb].
+  - lia.
+  - rewrite IH. rewrite Nat2N.inj_succ. lia.
+Qed.
+
+Lemma sel_eqb_exact_cuts c v :
+  sel_eqb (SelExact c) (SelExact v) = N.leb v c && negb (N.leb (N.succ v) c).
+Proof. cbn [sel_eqb]. lia. Qed.
+
+(* one range's block of claims *)
+Lemma agree_range s se s' se' name i (r : vrange) :
+  ssim (range_scuts r) s s' -> sel_sim (range_ccuts r) se se' ->
+  agree s se s' se'
+    (match parse_vlan_range (fst r), parse_cvlan (snd r) with
+     | Some svs, Some se0 => map (mk_claim se0 name i) svs
+     | _, _ => []
+     end).
+Proof.
+  unfold range_scuts, range_ccuts. intros Hs Hc.
+  destruct (parse_vlan_range (fst r)) as [svs|] eqn:Pv; [|apply agree_nil].
+  destruct (parse_cvlan (snd r)) as [se0|] eqn:Pc; [|apply agree_nil].
+  unfold agree. rewrite !find_block.
+  apply parse_vlan_range_syntax in Pv as [a [b [_ [Hab [Hb ->]]]]].
+  destruct (N.to_nat (b - a + 1)) as [|k] eqn:Ek; [reflexivity|].
+  cbn [nseq] in Hs.
+  assert (El : length (a :: nseq (N.succ a) k) = S k) by (cbn [length]; rewrite nseq_length; reflexivity).
+  rewrite El in Hs.
+  rewrite !existsb_nseq.
+  rewrite (Hs a) by (left; reflexivity).
+  rewrite (Hs (a + N.of_nat (S k))%N) by (right; left; reflexivity).
+  assert (E : sel_eqb se se0 = sel_eqb se' se0).
+  { destruct se0 as [|v]; destruct se as [|c], se' as [|c']; simpl in Hc; try contradiction; try reflexivity.
+    rewrite !sel_eqb_exact_cuts.
+    rewrite (Hc v) by (left; reflexivity). rewrite (Hc (N.succ v)) by (right; left; reflexivity). reflexivity. }
+  rewrite E. reflexivity.
+Qed.
+
+Lemma range_claims_mk name : forall rs i,
+  range_claims name i rs =
+  match rs with
+  | [] => []
+  | r :: rest =>
+      (match parse_vlan_range (fst r), parse_cvlan (snd r) with
+       | Some svs, Some se0 => map (mk_claim se0 name i) svs
+       | _, _ => []
+       end) ++ range_claims name (S i) rest
+  end.
+Proof. intros [|[sv cv] rest] i; reflexivity. Qed.
+
+Lemma agree_range_claims s se s' se' name : forall rs i,
+  ssim (flat_map range_scuts rs) s s' -> sel_sim (flat_map range_ccuts rs) se se' ->
+  agree s se s' se' (range_claims name i rs).
+Proof.
+  induction rs as [|r rs IH]; intros i Hs Hc; [apply agree_nil|].
+  rewrite range_claims_mk. cbn [flat_map] in Hs, Hc.
+  apply ssim_app in Hs as [Hs1 Hs2]. apply sel_sim_app in Hc as [Hc1 Hc2].
+  apply agree_app; [apply agree_range; assumption|apply IH; assumption].
+Qed.
+
+Lemma agree_claims_sorted s se s' se' : forall gs,
+  ssim (flat_map (fun g : group => flat_map range_scuts (snd g)) gs) s s' ->
+  sel_sim (flat_map (fun g : group => flat_map range_ccuts (snd g)) gs) se se' ->
+  agree s se s' se' (claims_sorted gs).
+Proof.
+  unfold claims_sorted. induction gs as [|g gs IH]; intros Hs Hc; [apply agree_nil|].
+  cbn [flat_map] in *. apply ssim_app in Hs as [Hs1 Hs2]. apply sel_sim_app in Hc as [Hc1 Hc2].
+  apply agree_app; [apply agree_range_claims; assumption|apply IH; assumption].
+Qed.
+
+Lemma ref_lookup_class_invariant cfg s s' c c' :
+  ssim (s_cuts cfg) s s' -> ssim (c_cuts cfg) c c' -> ref_lookup cfg s c = ref_lookup cfg s' c'.
+Proof.
+  intros Hs Hc. rewrite !ref_lookup_pr. unfold claims.
+  pose proof (agree_claims_sorted s (SelExact c) s' (SelExact c') (sort_groups cfg) Hs Hc) as E1.
+  pose proof (agree_claims_sorted s SelAny s' SelAny (sort_groups cfg) Hs I) as E2.
+  unfold agree in E1, E2. rewrite E1, E2. reflexivity.
+Qed.
+
+Lemma lookup_class_invariant cfg s s' c c' :
+  (forall p, In p (s_cuts cfg) -> N.leb p s = N.leb p s') ->
+  (forall p, In p (c_cuts cfg) -> N.leb p c = N.leb p c') ->
+  lookup (build cfg) s c = lookup (build cfg) s' c'.
+Proof. intros Hs Hc. rewrite !lookup_is_reference. apply ref_lookup_class_invariant; assumption. Qed.
+
+(* the representative: largest cut point <= x *)
+Lemma rep_aux cuts x : forall m, (m <= x)%N ->
+  let r := fold_left (fun m p => if (N.leb p x && N.ltb m p)%bool then p else m) cuts m in
+  (m <= r <= x)%N /\ forall p, In p cuts -> (p <= x)%N -> (p <= r)%N.
+Proof.
+  induction cuts as [|q cuts IH]; intros m Hm; cbn [fold_left].
+  - split; [lia|intros p []].
+  - set (m' := if (N.leb q x && N.ltb m q)%bool then q else m).
+    assert (Hm' : (m <= m' <= x)%N /\ ((q <= x)%N -> (q <= m')%N)).
+    { unfold m'. destruct (N.leb_spec q x), (N.ltb_spec m q); cbn [andb]; lia. }
+    destruct (IH m' (proj2 (proj1 Hm'))) as [Hr Hp]. cbv zeta in *. split; [lia|].
+    intros p [<-|Hin] Hpx; [|apply Hp; assumption]. destruct Hm' as [_ Hq]. specialize (Hq Hpx). lia.
+Qed.
+
+Lemma rep_spec cuts x p : In p cuts -> N.leb p x = N.leb p (rep cuts x).
+Proof.
+  intros Hin. destruct (rep_aux cuts x 0%N (N.le_0_l x)) as [Hr Hp]. fold (rep cuts x) in Hr, Hp.
+  specialize (Hp p Hin). destruct (N.leb_spec p x), (N.leb_spec p (rep cuts x)); try reflexivity; lia.
+Qed.
+
+Lemma rep_le cuts x : (rep cuts x <= x)%N.
+Proof. destruct (rep_aux cuts x 0%N (N.le_0_l x)) as [Hr _]. fold (rep cuts x) in Hr. lia. Qed.
+
+(* the sweep over one representative per class is the sweep over every pair *)
+Lemma lookup_via_rep cfg s c :
+  lookup (build cfg) s c = ref_lookup cfg (rep (s_cuts cfg) s) (rep (c_cuts cfg) c).
+Proof.
+  rewrite lookup_is_reference. apply ref_lookup_class_invariant; intros p Hp; apply rep_spec; exact Hp.
 Qed.
